@@ -552,6 +552,16 @@ def _check_prefix(db: DB, rep: Report, f, local: Optional[str], L: Optional[str]
                       "discarded, so Einsums whose prefixes are permutations of each other compare equal and "
                       "are fused" % v.func.id)
             continue
+        if isinstance(v, ast.Call) and isinstance(v.func, ast.Attribute) and v.func.attr == "join" and \
+                isinstance(v.func.value, ast.Constant) and isinstance(v.func.value.value, str) and \
+                (v.func.value.value == "" or v.func.value.value.isalnum()) and len(v.args) == 1:
+            rep.check("S7", False, db.loc(st), f.short, "prefix:joined",
+                      "prefix kept as a joined string",
+                      "the temporal prefix is stored as %r.join(...) of its rank names: rank names are "
+                      "alphanumeric and a flattened rank is named by the concatenation of its parts, so "
+                      "different prefixes ([M, K] and [MK]) give the same string, compare equal and the "
+                      "Einsums are fused" % v.func.value.value)
+            continue
         guard = [(norm(a), p) for t, pol in paths.guards(st, stop=fn) for a, p in paths.conjuncts(t, pol)]
         s_true = (S, True) in guard
         s_false = (S, False) in guard
@@ -652,7 +662,12 @@ def mutants(db: DB):
     rel = "teaal/ir/fusion.py"
     dec = ("if config == self.curr_config and fused_ranks == self.fused_ranks and not "
            "self.components_used.intersection(\n                components_used):")
+    from sa.selftest import Mutant, Edit
     return [
+        Mutant("temporal prefix kept as a joined string (C13-u2)",
+               [Edit(rel, "            fused_ranks = loop_ranks[:first_space]", "            fused_ranks = \"\".join(loop_ranks[:first_space])"),
+                Edit(rel, "            fused_ranks = loop_ranks\n", "            fused_ranks = \"\".join(loop_ranks)\n"),
+                Edit(rel, "        fused_ranks: List[str]\n", "        fused_ranks: str\n")], ("S7",)),
         M("revert F13 fix (mergers are not functional components)", "teaal/ir/component.py",
           "class MergerComponent(FunctionalComponent):", "class MergerComponent(Component):", "S8"),
         M("reported blocks sorted", "teaal/trans/collector.py",
